@@ -47,6 +47,16 @@ func instrumentCImpl(fset *token.FileSet, f *ast.File, rel string) error {
 		return ci.err
 	}
 	rewriteRecvInExpr(f)
+	// context.AfterFunc starts a goroutine inside the standard library: route it to the scheduler
+	ast.Inspect(f, func(n ast.Node) bool {
+		if se, ok := n.(*ast.SelectorExpr); ok && se.Sel.Name == "AfterFunc" {
+			if id, ok := se.X.(*ast.Ident); ok && id.Name == "context" && id.Obj == nil {
+				se.X = ast.NewIdent("vsched")
+				se.Sel = ast.NewIdent("ContextAfterFunc")
+			}
+		}
+		return true
+	})
 	if err := ci.verify(f); err != nil {
 		return err
 	}
@@ -349,6 +359,19 @@ func (ci *cinst) stmt(st ast.Stmt, line int, out []ast.Stmt) []ast.Stmt {
 					}
 				case *ast.SendStmt:
 					hasSend = true
+					// the send succeeded: the receive that made room for it happens before what follows (semaphore idiom)
+					var acq ast.Stmt
+					switch cm.Chan.(type) {
+					case *ast.Ident, *ast.SelectorExpr:
+						if ci.baseOK(cm.Chan, false, x) {
+							acq = call("vsched", "HBChanSent", cloneExpr(cm.Chan))
+						}
+					}
+					if acq == nil {
+						acq = call("vsched", "HBAcquireAll")
+					}
+					ci.gen[acq] = true
+					pro = append(pro, acq)
 				}
 				cc.Body = append(pro, cc.Body...)
 			}
